@@ -13,9 +13,15 @@ BigRecs2 == <<[hdr |-> 2, L |-> 3300001, W |-> 60], [hdr |-> 7, L |-> 3299999, W
               [hdr |-> 2, L |-> 3300003, W |-> 50], [hdr |-> 7, L |-> 2100000, W |-> 61], [hdr |-> 2, L |-> 77, W |-> 50]>>
 BigInit2 == recs = BigRecs2 /\ last = [op |-> "open"] /\ pos = 0 /\ nf = 0 /\ gen = 0
 BigSpec2 == BigInit2 /\ [][UNCHANGED vars]_vars
+\* a third layout: one record of exactly two raw reads without a newline after its last base, whose first read ends on a line break
+\* (13 + 61 * 81967 = 5 000 000 and 13 + 61 * 163934 + 13 = 10 000 000); checked with FinalNL = FALSE
+BigRecs3 == <<[hdr |-> 11, L |-> 9836053, W |-> 60]>>
+BigInit3 == recs = BigRecs3 /\ last = [op |-> "open"] /\ pos = 0 /\ nf = 0 /\ gen = 0
+BigSpec3 == BigInit3 /\ [][UNCHANGED vars]_vars
+TwoFullReads == FinalNL \/ SizeBefore(BigRecs3, 1) + RecSize(BigRecs3[1]) - Len(EOL) = 10000000
 BigInit == recs = BigRecs /\ last = [op |-> "open"] /\ pos = 0 /\ nf = 0 /\ gen = 0
 BigSpec == BigInit /\ [][UNCHANGED vars]_vars
 ReadBoundaryAtLineEnd == (1 + BigRecs[1].hdr + Len(EOL)) + (BigRecs[1].W + Len(EOL)) * ((5000000 - (1 + BigRecs[1].hdr + Len(EOL))) \div (BigRecs[1].W + Len(EOL))) = 5000000 \/ CRLF
-EmitBig == PrintT(ToJson([recs |-> recs, crlf |-> CRLF, index |-> [r \in DOMAIN recs |-> IndexRowArith(recs, r)],
-                          flen |-> SizeBefore(recs, Len(recs)) + RecSize(recs[Len(recs)])]))
+EmitBig == PrintT(ToJson([recs |-> recs, crlf |-> CRLF, finalnl |-> FinalNL, index |-> [r \in DOMAIN recs |-> IndexRowArith(recs, r)],
+                          flen |-> SizeBefore(recs, Len(recs)) + RecSize(recs[Len(recs)]) - (IF FinalNL THEN 0 ELSE Len(EOL))]))
 ==============================================================================
